@@ -450,6 +450,27 @@ def evaluate(prop: Prop, modname: str, cases: list) -> list:
 
 
 def run_check(modname: str, tier: str, seed: int, replay: Optional[str] = None) -> int:
+    """every temporary file of the run (the code under test makes `openfisca_*` directories of its own when a simulation keeps
+    values on disk) goes to a directory of this run, removed when the run ends"""
+    import shutil
+    import tempfile
+    base = "/var/tmp" if os.path.isdir("/var/tmp") else None
+    run_tmp = tempfile.mkdtemp(prefix="ofv_run_", dir=base)
+    old_env, old_tmp = os.environ.get("TMPDIR"), tempfile.tempdir
+    os.environ["TMPDIR"] = run_tmp
+    tempfile.tempdir = run_tmp          # inherited by the forked workers
+    try:
+        return _run_check(modname, tier, seed, replay)
+    finally:
+        tempfile.tempdir = old_tmp
+        if old_env is None:
+            os.environ.pop("TMPDIR", None)
+        else:
+            os.environ["TMPDIR"] = old_env
+        shutil.rmtree(run_tmp, ignore_errors=True)
+
+
+def _run_check(modname: str, tier: str, seed: int, replay: Optional[str] = None) -> int:
     t0 = time.time()
     setup_repo_path()
     mod = importlib.import_module(modname)
